@@ -10,7 +10,8 @@
 //!   channel (C08 / C07): every sequence of 1..4 packets over {ACK 1, ACK 2, ACK 4, DATA 1, ERROR} put into a
 //!                  ServerSocket's channel comes out of `recv_with_size` in order, none dropped (runs of identical ACKs may be merged); an
 //!                  empty channel fails after about the configured time-out (50 ms), also after `set_read_timeout`
-//! exit 1 with a COUNTEREXAMPLE line on a violation.   usage: bounded_socket [send|recv|channel|all]
+//! exit 1 with a COUNTEREXAMPLE line on a violation.   usage: bounded_socket [send|recv|channel|errors|all]
+//! (`errors` = the channel part judged for C07 only: every ERROR gets through, an empty channel times out)
 use std::net::{SocketAddr, UdpSocket};
 use std::time::{Duration, Instant};
 use tftpd::{ErrorCode, Packet, ServerSocket, Socket};
@@ -133,7 +134,7 @@ fn main() {
             }
         }
     }
-    if want("channel") {
+    if want("channel") || mode == "errors" {
         let alphabet = || vec![
             Packet::Ack(1), Packet::Ack(2), Packet::Ack(4), Packet::Data { block_num: 1, data: vec![7; 8] },
             Packet::Error { code: ErrorCode::DiskFull, msg: "stop".into() },
@@ -176,7 +177,13 @@ fn main() {
                     out
                 }
                 let seen_names: Vec<String> = seen.iter().map(show).collect();
-                if seen_names != names && !(merged(&seen) == merged(&seq) && seen.len() <= seq.len()) {
+                if mode == "errors" {
+                    // C07 only asks that the peer's ERROR reaches the transfer and that silence is noticed (time-out below)
+                    let errs = |v: &[Packet]| v.iter().filter(|p| matches!(p, Packet::Error { .. })).count();
+                    if errs(&seen) != errs(&seq) {
+                        fail(format!("ServerSocket: the listener routed {names:?} to a transfer, in this order; its receive calls returned {seen_names:?}: an ERROR did not get through"));
+                    }
+                } else if seen_names != names && !(merged(&seen) == merged(&seq) && seen.len() <= seq.len()) {
                     fail(format!("ServerSocket: the listener routed {names:?} to a transfer, in this order; its receive calls returned {seen_names:?}"));
                 }
                 if code % 97 == 0 {
